@@ -199,3 +199,37 @@ def typed_worker(args):
             shutil.rmtree(tmp, ignore_errors=True)
 
 
+
+
+def viral_worker(args):
+    """run one generated viral-attribute script on its inputs in the row order given by perm_seed (None = as generated)"""
+    import signal
+    import eng
+    from vtlengine import run
+    from sem import gen_viral as GV
+    from sem.runner import _TO, _alarm
+    vtl, structs, env, perm_seed = args
+    signal.signal(signal.SIGALRM, _alarm)
+    signal.alarm(120)
+    try:
+        return _canon(eng, eng.outcome(run, vtl, structs, GV.dataframes(env, perm_seed)))
+    except _TO:
+        return ('timeout',)
+    finally:
+        signal.alarm(0)
+
+
+def run_viral(cases, seeds, jobs=None):
+    """-> {case index: [outcome per seed]} for cases of sem.gen_viral.ViralGen"""
+    import multiprocessing as mp
+    import os
+    from sem import gen_viral as GV
+    args = []
+    for c in cases:
+        st = GV.structures(c['env'])
+        for sd in seeds:
+            args.append((c['vtl'], st, c['env'], sd))
+    with mp.get_context('fork').Pool(jobs or min(12, os.cpu_count() or 4)) as pool:
+        outs = pool.map(viral_worker, args, chunksize=1)
+    k = len(seeds)
+    return {i: outs[i * k:(i + 1) * k] for i in range(len(cases))}
